@@ -1,4 +1,5 @@
 import NucleoVerif.Model.Matcher
+import NucleoVerif.Lemmas.DP
 /-! The common shape of the one-character scans (`substring_match_1_ascii` / `_non_ascii`) and basic facts. -/
 namespace NucleoVerif
 open Gen
@@ -98,5 +99,161 @@ theorem scan1_pos (cfg : Cfg) (m : Nat → Bool) (cl : Nat → CharClass) :
         · rcases List.mem_cons.mp hy with rfl | hy
           · rw [hm'] at hmy; cases hmy
           · exact Or.inr ⟨y, hy, hmy⟩
+
+open Spec in
+/-- no bonus exceeds the value the early exit waits for — for every configuration whose largest boundary bonus
+    is at least the non-word bonus -/
+theorem bonus_le_max (cfg : Cfg) (hb : 8 ≤ maxBonus cfg) (prev cls : CharClass) :
+    bonusFor cfg prev cls ≤ maxBonus cfg := by
+  rw [DP.bonusFor_eq_spec]
+  unfold maxBonus at *
+  simp only [specBonus]
+  repeat' split
+  all_goals omega
+
+theorem Best.offer_stopped (cfg : Cfg) (b : Best) (pos bonus : Nat) (ok : Bool) (h : b.stop = true) :
+    b.offer cfg pos bonus ok = b := by
+  simp [Best.offer, h]
+
+/-- an accepted candidate scores `16 + 2·bonus`, a later candidate replaces it only with a strictly
+    larger score: **the leftmost best-placed occurrence wins** -/
+theorem Best.offer_score (cfg : Cfg) (b : Best) (pos bonus : Nat) (ok : Bool) :
+    (b.offer cfg pos bonus ok = b) ∨
+    ((b.offer cfg pos bonus ok).score = bonus * BONUS_FIRST_CHAR_MULTIPLIER + SCORE_MATCH ∧
+     (b.offer cfg pos bonus ok).pos = pos ∧ b.score < bonus * BONUS_FIRST_CHAR_MULTIPLIER + SCORE_MATCH ∧ ok = true) := by
+  unfold Best.offer
+  split
+  · exact Or.inl rfl
+  · split
+    · rename_i h; exact Or.inr ⟨rfl, rfl, h.1, h.2⟩
+    · exact Or.inl rfl
+
+/-- stopping early is sound: a stopped scan holds a candidate with the maximal possible score -/
+theorem Best.offer_stop_max (cfg : Cfg) (b : Best) (pos bonus : Nat) (ok : Bool) (hb : 8 ≤ maxBonus cfg)
+    (hbonus : ∃ p c, bonus = bonusFor cfg p c)
+    (hinv : b.stop = true → ∀ p c, bonusFor cfg p c * BONUS_FIRST_CHAR_MULTIPLIER + SCORE_MATCH ≤ b.score) :
+    (b.offer cfg pos bonus ok).stop = true →
+      ∀ p c, bonusFor cfg p c * BONUS_FIRST_CHAR_MULTIPLIER + SCORE_MATCH ≤ (b.offer cfg pos bonus ok).score := by
+  unfold Best.offer
+  split
+  · rename_i hs; intro _; exact hinv hs
+  · split
+    · intro hst p c
+      simp only [decide_eq_true_eq] at hst
+      have := bonus_le_max cfg hb p c
+      simp only [BONUS_FIRST_CHAR_MULTIPLIER, SCORE_MATCH]
+      omega
+    · intro hst; rename_i hns _; exact absurd hst hns
+
+/-- the general candidate scan shared by all `substring_match_*` loops: at every position an acceptance test that may
+    look at the position and the rest of the haystack decides whether the position is offered -/
+def scanS (cfg : Cfg) (acc : Nat → List Nat → Bool) (cl : Nat → CharClass) : Best → CharClass → Nat → List Nat → Best
+  | b, _, _, [] => b
+  | b, prev, pos, x :: xs =>
+    scanS cfg acc cl (if acc pos (x :: xs) then b.offer cfg pos (bonusFor cfg prev (cl x)) true else b) (cl x) (pos + 1) xs
+
+/-- its candidates: (position, 16 + 2·bonus) of every accepted position -/
+def candsS (cfg : Cfg) (acc : Nat → List Nat → Bool) (cl : Nat → CharClass) : CharClass → Nat → List Nat → List (Nat × Nat)
+  | _, _, [] => []
+  | prev, pos, x :: xs =>
+    (if acc pos (x :: xs) then [(pos, bonusFor cfg prev (cl x) * BONUS_FIRST_CHAR_MULTIPLIER + SCORE_MATCH)] else [])
+      ++ candsS cfg acc cl (cl x) (pos + 1) xs
+
+theorem scan1_eq_scanS (cfg : Cfg) (m : Nat → Bool) (cl : Nat → CharClass) :
+    ∀ (xs : List Nat) (b : Best) (prev : CharClass) (pos : Nat),
+      scan1 cfg m cl b prev pos xs = scanS cfg (fun _ s => m (s.headD 0)) cl b prev pos xs := by
+  intro xs
+  induction xs with
+  | nil => intro _ _ _; rfl
+  | cons x xs ih => intro b prev pos; simp only [scan1, scanS, List.headD_cons]; exact ih _ _ _
+
+theorem cands1_eq_candsS (cfg : Cfg) (m : Nat → Bool) (cl : Nat → CharClass) :
+    ∀ (xs : List Nat) (prev : CharClass) (pos : Nat),
+      cands1 cfg m cl prev pos xs = candsS cfg (fun _ s => m (s.headD 0)) cl prev pos xs := by
+  intro xs
+  induction xs with
+  | nil => intro _ _; rfl
+  | cons x xs ih => intro prev pos; simp [cands1, candsS, ih]
+
+/-- what a scan state knows about the candidates `S` seen so far -/
+structure ScanInv (cfg : Cfg) (b : Best) (S : List (Nat × Nat)) : Prop where
+  upper : ∀ ps ∈ S, ps.2 ≤ b.score
+  attained : b.score = 0 ∨ ((b.pos, b.score) ∈ S ∧ ∀ ps ∈ S, ps.2 = b.score → b.pos ≤ ps.1)
+  stopOK : b.stop = true → ∀ p c, bonusFor cfg p c * BONUS_FIRST_CHAR_MULTIPLIER + SCORE_MATCH ≤ b.score
+
+theorem scanS_inv (cfg : Cfg) (hb : 8 ≤ maxBonus cfg) (acc : Nat → List Nat → Bool) (cl : Nat → CharClass) :
+    ∀ (xs : List Nat) (b : Best) (prev : CharClass) (pos : Nat) (S : List (Nat × Nat)),
+      ScanInv cfg b S → (∀ ps ∈ S, ps.1 < pos) →
+      ScanInv cfg (scanS cfg acc cl b prev pos xs) (S ++ candsS cfg acc cl prev pos xs) := by
+  intro xs
+  induction xs with
+  | nil => intro b prev pos S h _; simpa [scanS, candsS] using h
+  | cons x xs ih =>
+    intro b prev pos S h hlt
+    simp only [scanS, candsS]
+    rw [← List.append_assoc]
+    apply ih
+    · -- one step
+      by_cases hm : acc pos (x :: xs) = true
+      · simp only [hm, if_true]
+        generalize hs : bonusFor cfg prev (cl x) * BONUS_FIRST_CHAR_MULTIPLIER + SCORE_MATCH = s
+        have hstop := Best.offer_stop_max cfg b pos (bonusFor cfg prev (cl x)) true hb ⟨prev, cl x, rfl⟩ h.stopOK
+        rcases Best.offer_score cfg b pos (bonusFor cfg prev (cl x)) true with e | ⟨e1, e2, e3, _⟩
+        · -- not replaced: either stopped or the candidate is not better
+          rw [e] at hstop ⊢
+          have hle : s ≤ b.score := by
+            by_cases hst : b.stop = true
+            · rw [← hs]; exact h.stopOK hst prev (cl x)
+            · -- offer kept b although not stopped: the candidate's score is not larger
+              unfold Best.offer at e
+              simp only [hst, Bool.false_eq_true, if_false, and_true] at e
+              split at e
+              · rename_i hgt
+                have : b.score = s := by rw [← e, ← hs]
+                omega
+              · rename_i hng; rw [← hs]; omega
+          refine ⟨?_, ?_, hstop⟩
+          · intro ps hps
+            simp only [List.mem_append, List.mem_singleton] at hps
+            rcases hps with hps | hps
+            · exact h.upper ps hps
+            · subst hps; exact hle
+          · rcases h.attained with z | ⟨a1, a2⟩
+            · exact Or.inl z
+            · right
+              refine ⟨by simp [a1], ?_⟩
+              intro ps hps heq
+              simp only [List.mem_append, List.mem_singleton] at hps
+              rcases hps with hps | hps
+              · exact a2 ps hps heq
+              · subst hps; have := hlt _ a1; simp only at this ⊢; omega
+        · -- replaced by the new candidate
+          rw [hs] at e1 e3
+          refine ⟨?_, ?_, hstop⟩
+          · intro ps hps
+            simp only [List.mem_append, List.mem_singleton] at hps
+            rcases hps with hps | hps
+            · have := h.upper ps hps; omega
+            · subst hps; simp only [e1]; exact Nat.le_refl _
+          · right
+            rw [e1, e2]
+            refine ⟨by simp, ?_⟩
+            intro ps hps heq
+            simp only [List.mem_append, List.mem_singleton] at hps
+            rcases hps with hps | hps
+            · have := h.upper ps hps; omega
+            · subst hps; exact Nat.le_refl _
+      · have hm' : acc pos (x :: xs) = false := by simpa using hm
+        simp only [hm', Bool.false_eq_true, if_false, List.append_nil]
+        exact h
+    · intro ps hps
+      simp only [List.mem_append] at hps
+      rcases hps with hps | hps
+      · have := hlt ps hps; omega
+      · split at hps
+        · simp only [List.mem_singleton] at hps; subst hps; simp
+        · simp at hps
+
+
 
 end NucleoVerif
